@@ -30,6 +30,51 @@ def anchored_functions(ctx):
 NO_SWEEP = {"C12", "C13"}
 
 
+UNTRIMMED = ("dx", "grid_sizes", "step_numbers", "factors")
+
+
+def rule_level_table(ctx, prefix, fi):
+    """the reader keeps `dx`, `grid_sizes`, `step_numbers` (and the ratio list) for every level of the Header
+    (max_level + 1 entries) while `boxes` / `cells` / `grids` hold the selected levels 0..limit_level only.  Taking the
+    *length* of an untrimmed table as the number of levels, or its *last* entry as "the finest selected level", is
+    right only without a level limit."""
+    import ast
+    from .model import norm, walk_no_nested, loc
+    bad = []
+    for n in walk_no_nested(fi.node):
+        if isinstance(n, ast.Call) and isinstance(n.func, ast.Name) and n.func.id == "len" and len(n.args) == 1 \
+                and isinstance(n.args[0], ast.Attribute) and n.args[0].attr in UNTRIMMED:
+            bad.append((n, f"`{norm(n)}` counts every level of the Header, not the selected levels (limit_level + 1)"))
+        if isinstance(n, ast.Subscript) and isinstance(n.value, ast.Attribute) and n.value.attr in UNTRIMMED \
+                and isinstance(n.ctx, ast.Load):
+            sl = n.slice
+            neg = isinstance(sl, ast.UnaryOp) and isinstance(sl.op, ast.USub) and isinstance(sl.operand, ast.Constant)
+            if neg:
+                bad.append((n, f"`{norm(n)}` is the entry of the Header's finest level, not of the finest selected "
+                               f"level (limit_level)"))
+    # building the table itself (`t.append(t[-1] * 2)`) is not a read of "the finest level"
+    keep = []
+    import ast as _a
+    par = {}
+    for x in _a.walk(fi.node):
+        for c in _a.iter_child_nodes(x):
+            par[c] = x
+    for n, msg in bad:
+        p = par.get(n)
+        building = False
+        while p is not None and not isinstance(p, _a.stmt):
+            if isinstance(p, _a.Call) and isinstance(p.func, _a.Attribute) and p.func.attr in ("append", "extend") \
+                    and isinstance(n, _a.Subscript) and norm(p.func.value) == norm(n.value):
+                building = True
+            p = par.get(p)
+        if not building:
+            keep.append((n, msg))
+    ctx.check(not keep, f"{prefix}.LEVEL-TABLE", fi.site,
+              "no level count / finest level is taken from a table that is not trimmed to the level limit",
+              "; ".join(m for _, m in keep[:2]) + ": with limit_level below the Header's finest level this names "
+              "another level", key="level-table", where=loc(fi, keep[0][0]) if keep else None, semantic=True)
+
+
 def sweep(ctx):
     if ctx.prop in NO_SWEEP:
         return
@@ -38,4 +83,5 @@ def sweep(ctx):
         if fi.module.relpath in ctx.prog.excluded:
             continue
         loopstate.rule_loop_state(ctx, ctx.prop, fi)
-    ctx.note("generic_lints", {"functions": len(fns), "lints": ["LOOP-STATE"]})
+        rule_level_table(ctx, ctx.prop, fi)
+    ctx.note("generic_lints", {"functions": len(fns), "lints": ["LOOP-STATE", "LEVEL-TABLE"]})
